@@ -1,6 +1,6 @@
 //! A `Hasher` that records the exact byte stream written to it (the sequence of `write*` calls,
 //! flattened). Two values whose recorded streams are equal hash equally under EVERY hasher.
-pub const TRACE: usize = 48;
+pub const TRACE: usize = 32;
 pub struct Rec {
     pub bytes: [u8; TRACE],
     pub n: usize,
@@ -11,17 +11,44 @@ impl Rec {
         Rec { bytes: [0u8; TRACE], n: 0, overflow: false }
     }
     pub fn same(&self, o: &Rec) -> bool {
+        // loop-free (TRACE = 32), so that the unwinding bound of a harness is independent of it
         if self.n != o.n || self.overflow || o.overflow {
             return false;
         }
-        let mut i = 0;
-        while i < TRACE {
-            if i < self.n && self.bytes[i] != o.bytes[i] {
-                return false;
-            }
-            i += 1;
-        }
+        let n = self.n;
         true
+            && (n <= 0 || self.bytes[0] == o.bytes[0])
+            && (n <= 1 || self.bytes[1] == o.bytes[1])
+            && (n <= 2 || self.bytes[2] == o.bytes[2])
+            && (n <= 3 || self.bytes[3] == o.bytes[3])
+            && (n <= 4 || self.bytes[4] == o.bytes[4])
+            && (n <= 5 || self.bytes[5] == o.bytes[5])
+            && (n <= 6 || self.bytes[6] == o.bytes[6])
+            && (n <= 7 || self.bytes[7] == o.bytes[7])
+            && (n <= 8 || self.bytes[8] == o.bytes[8])
+            && (n <= 9 || self.bytes[9] == o.bytes[9])
+            && (n <= 10 || self.bytes[10] == o.bytes[10])
+            && (n <= 11 || self.bytes[11] == o.bytes[11])
+            && (n <= 12 || self.bytes[12] == o.bytes[12])
+            && (n <= 13 || self.bytes[13] == o.bytes[13])
+            && (n <= 14 || self.bytes[14] == o.bytes[14])
+            && (n <= 15 || self.bytes[15] == o.bytes[15])
+            && (n <= 16 || self.bytes[16] == o.bytes[16])
+            && (n <= 17 || self.bytes[17] == o.bytes[17])
+            && (n <= 18 || self.bytes[18] == o.bytes[18])
+            && (n <= 19 || self.bytes[19] == o.bytes[19])
+            && (n <= 20 || self.bytes[20] == o.bytes[20])
+            && (n <= 21 || self.bytes[21] == o.bytes[21])
+            && (n <= 22 || self.bytes[22] == o.bytes[22])
+            && (n <= 23 || self.bytes[23] == o.bytes[23])
+            && (n <= 24 || self.bytes[24] == o.bytes[24])
+            && (n <= 25 || self.bytes[25] == o.bytes[25])
+            && (n <= 26 || self.bytes[26] == o.bytes[26])
+            && (n <= 27 || self.bytes[27] == o.bytes[27])
+            && (n <= 28 || self.bytes[28] == o.bytes[28])
+            && (n <= 29 || self.bytes[29] == o.bytes[29])
+            && (n <= 30 || self.bytes[30] == o.bytes[30])
+            && (n <= 31 || self.bytes[31] == o.bytes[31])
     }
 }
 impl std::hash::Hasher for Rec {
